@@ -527,144 +527,167 @@ func runTLSBinaries(r *evid.Run, bin string) {
 	right, wrong := newCA("right-ca"), newCA("wrong-ca")
 	leaves := tlsLeaves(right, wrong)
 	srv := newLeaf("server", right, "right", "server.test", []string{"server.test"}, nil, true)
-	for _, mode := range []string{"cn", "hostname"} {
-		for _, cca := range []bool{false, true} {
-			dir, err := os.MkdirTemp("", "verif-c17-tlsbin-")
-			if err != nil {
-				r.Inconcl.Add(1)
-				return
-			}
-			func() {
-				defer os.RemoveAll(dir)
-				caFile := filepath.Join(dir, "ca.crt")
-				_ = os.WriteFile(caFile, right.pem, 0o600)
-				scf, skf := writeKeyPair(dir, "server", srv)
-				apiPort, replPort := freePort(), freePort()
-				raft := fmt.Sprintf("127.0.0.1:%d", freePort())
-				allowKey, allowVal := "allowed-cn", cn
-				if mode == "hostname" {
-					allowKey, allowVal = "allowed-hostname", host
+	for _, scheme := range []string{"https", "unixs"} {
+		for _, mode := range []string{"cn", "hostname"} {
+			for _, cca := range []bool{false, true} {
+				if scheme == "unixs" && (mode != "cn" || cca) {
+					continue // TLS over unix sockets: one configuration
 				}
-				// the replication endpoint's allowed-cn / allowed-hostname have no flag: config file
-				cfg := fmt.Sprintf("replication:\n  %s: %q\n", allowKey, allowVal)
-				_ = os.WriteFile(filepath.Join(dir, "config.yaml"), []byte(cfg), 0o600)
-				args := []string{"leader",
-					"--api.address", fmt.Sprintf("https://127.0.0.1:%d", apiPort),
-					"--api.cert-filename", scf, "--api.key-filename", skf, "--api.ca-filename", caFile, "--api." + allowKey, allowVal,
-					"--replication.address", fmt.Sprintf("https://127.0.0.1:%d", replPort),
-					"--replication.cert-filename", scf, "--replication.key-filename", skf, "--replication.ca-filename", caFile,
-					"--rest.address", fmt.Sprintf("http://127.0.0.1:%d", freePort()),
-					"--raft.address", raft, "--raft.initial-members", "1=" + raft,
-					"--raft.node-host-dir", filepath.Join(dir, "nh"), "--raft.state-machine-dir", filepath.Join(dir, "sm"),
-					"--raft.rtt", "5ms", "--raft.election-rtt", "10",
-					"--memberlist.address", fmt.Sprintf("127.0.0.1:%d", freePort()),
-					"--log-level", "ERROR",
-				}
-				if cca {
-					args = append(args, "--api.client-cert-auth", "--replication.client-cert-auth")
-				}
-				cmd := exec.Command(bin, args...)
-				logf := filepath.Join(dir, "leader.log")
-				f, _ := os.Create(logf)
-				cmd.Stdout, cmd.Stderr = f, f
-				cmd.Dir = dir
-				if err := cmd.Start(); err != nil {
+				dir, err := os.MkdirTemp("", "verif-c17-tlsbin-")
+				if err != nil {
 					r.Inconcl.Add(1)
 					return
 				}
-				defer func() {
-					_ = cmd.Process.Signal(os.Interrupt)
-					done := make(chan struct{})
-					go func() { _ = cmd.Wait(); close(done) }()
-					select {
-					case <-done:
-					case <-time.After(10 * time.Second):
-						_ = cmd.Process.Kill()
-						<-done
+				func() {
+					defer os.RemoveAll(dir)
+					caFile := filepath.Join(dir, "ca.crt")
+					_ = os.WriteFile(caFile, right.pem, 0o600)
+					scf, skf := writeKeyPair(dir, "server", srv)
+					apiPort, replPort := freePort(), freePort()
+					raft := fmt.Sprintf("127.0.0.1:%d", freePort())
+					allowKey, allowVal := "allowed-cn", cn
+					if mode == "hostname" {
+						allowKey, allowVal = "allowed-hostname", host
 					}
-				}()
-				call := func(port int, l *leaf, replication bool) (accepted bool, err error) {
-					ccfg := &tls.Config{ServerName: "server.test", RootCAs: x509.NewCertPool(), MinVersion: tls.VersionTLS12}
-					ccfg.RootCAs.AddCert(right.cert)
-					if l != nil {
-						c := l.cert
-						ccfg.GetClientCertificate = func(*tls.CertificateRequestInfo) (*tls.Certificate, error) { return &c, nil }
-					}
-					conn, err := grpc.NewClient(fmt.Sprintf("127.0.0.1:%d", port), grpc.WithTransportCredentials(credentials.NewTLS(ccfg)))
-					if err != nil {
-						return false, err
-					}
-					defer conn.Close()
-					ctx, cancel := context.WithTimeout(context.Background(), 5*time.Second)
-					defer cancel()
-					if replication {
-						_, err = regattapb.NewMetadataClient(conn).Get(ctx, &regattapb.MetadataRequest{})
-					} else {
-						_, err = regattapb.NewClusterClient(conn).Status(ctx, &regattapb.StatusRequest{})
-					}
-					// a refused certificate surfaces as a transport failure; any answer of a handler
-					// (OK or an application status) means the connection was accepted
-					if c := status.Code(err); c == codes.Unavailable || c == codes.DeadlineExceeded {
-						return false, err
-					}
-					return true, err
-				}
-				// ready when the right client gets an answer on both endpoints
-				var good *leaf
-				for _, l := range leaves {
-					if l != nil && ((mode == "cn" && l.name == "rightCA/rightCN") || (mode == "hostname" && l.name == "rightCA/hostname-in-SAN")) {
-						good = l
-					}
-				}
-				ready := false
-				for deadline := time.Now().Add(60 * time.Second); time.Now().Before(deadline); time.Sleep(100 * time.Millisecond) {
-					a, _ := call(apiPort, good, false)
-					b, _ := call(replPort, good, true)
-					if a && b {
-						ready = true
-						break
-					}
-				}
-				desc := fmt.Sprintf("regatta leader {ca-filename, %s, client-cert-auth=%v}", allowKey, cca)
-				if !ready {
-					b, _ := os.ReadFile(logf)
-					r.Violate("tlsbin/right-client-never-accepted/"+mode, desc+": "+tail(string(b)), map[string]any{"kind": "tlsbin", "config": desc})
-					return
-				}
-				for _, ep := range []string{"api", "replication"} {
-					port := apiPort
-					if ep == "replication" {
-						port = replPort
-					}
-					for _, l := range leaves {
-						name := "no-certificate"
-						if l != nil {
-							name = l.name
+					// the replication endpoint's allowed-cn / allowed-hostname have no flag: config file
+					cfg := fmt.Sprintf("replication:\n  %s: %q\n", allowKey, allowVal)
+					_ = os.WriteFile(filepath.Join(dir, "config.yaml"), []byte(cfg), 0o600)
+					apiAddr, replAddr := fmt.Sprintf("https://127.0.0.1:%d", apiPort), fmt.Sprintf("https://127.0.0.1:%d", replPort)
+					target := func(port int) string { return fmt.Sprintf("127.0.0.1:%d", port) }
+					if scheme == "unixs" {
+						apiAddr, replAddr = "unixs://"+filepath.Join(dir, "api.sock"), "unixs://"+filepath.Join(dir, "repl.sock")
+						target = func(port int) string {
+							if port == apiPort {
+								return "unix://" + filepath.Join(dir, "api.sock")
+							}
+							return "unix://" + filepath.Join(dir, "repl.sock")
 						}
-						accepted, cerr := call(port, l, ep == "replication")
-						should := l != nil && l.chainsTo == "right"
-						if should {
-							if mode == "cn" {
-								should = l.x.Subject.CommonName == cn
-							} else {
-								should = l.x.VerifyHostname(host) == nil
+					}
+					args := []string{"leader",
+						"--api.address", apiAddr,
+						"--api.cert-filename", scf, "--api.key-filename", skf, "--api.ca-filename", caFile, "--api." + allowKey, allowVal,
+						"--replication.address", replAddr,
+						"--replication.cert-filename", scf, "--replication.key-filename", skf, "--replication.ca-filename", caFile,
+						"--rest.address", fmt.Sprintf("http://127.0.0.1:%d", freePort()),
+						"--raft.address", raft, "--raft.initial-members", "1=" + raft,
+						"--raft.node-host-dir", filepath.Join(dir, "nh"), "--raft.state-machine-dir", filepath.Join(dir, "sm"),
+						"--raft.rtt", "5ms", "--raft.election-rtt", "10",
+						"--memberlist.address", fmt.Sprintf("127.0.0.1:%d", freePort()),
+						"--log-level", "ERROR",
+					}
+					if cca {
+						args = append(args, "--api.client-cert-auth", "--replication.client-cert-auth")
+					}
+					cmd := exec.Command(bin, args...)
+					logf := filepath.Join(dir, "leader.log")
+					f, _ := os.Create(logf)
+					cmd.Stdout, cmd.Stderr = f, f
+					cmd.Dir = dir
+					if err := cmd.Start(); err != nil {
+						r.Inconcl.Add(1)
+						return
+					}
+					defer func() {
+						_ = cmd.Process.Signal(os.Interrupt)
+						done := make(chan struct{})
+						go func() { _ = cmd.Wait(); close(done) }()
+						select {
+						case <-done:
+						case <-time.After(10 * time.Second):
+							_ = cmd.Process.Kill()
+							<-done
+						}
+					}()
+					call := func(port int, l *leaf, replication bool) (accepted bool, err error) {
+						ccfg := &tls.Config{ServerName: "server.test", RootCAs: x509.NewCertPool(), MinVersion: tls.VersionTLS12}
+						ccfg.RootCAs.AddCert(right.cert)
+						if l != nil && l != plaintext {
+							c := l.cert
+							ccfg.GetClientCertificate = func(*tls.CertificateRequestInfo) (*tls.Certificate, error) { return &c, nil }
+						}
+						creds := credentials.NewTLS(ccfg)
+						if l == plaintext {
+							creds = insecure.NewCredentials() // a client that does not speak TLS at all
+						}
+						conn, err := grpc.NewClient(target(port), grpc.WithTransportCredentials(creds))
+						if err != nil {
+							return false, err
+						}
+						defer conn.Close()
+						ctx, cancel := context.WithTimeout(context.Background(), 5*time.Second)
+						defer cancel()
+						if replication {
+							_, err = regattapb.NewMetadataClient(conn).Get(ctx, &regattapb.MetadataRequest{})
+						} else {
+							_, err = regattapb.NewClusterClient(conn).Status(ctx, &regattapb.StatusRequest{})
+						}
+						// a refused certificate surfaces as a transport failure; any answer of a handler
+						// (OK or an application status) means the connection was accepted
+						if c := status.Code(err); c == codes.Unavailable || c == codes.DeadlineExceeded {
+							return false, err
+						}
+						return true, err
+					}
+					// ready when the right client gets an answer on both endpoints
+					var good *leaf
+					for _, l := range leaves {
+						if l != nil && ((mode == "cn" && l.name == "rightCA/rightCN") || (mode == "hostname" && l.name == "rightCA/hostname-in-SAN")) {
+							good = l
+						}
+					}
+					ready := false
+					for deadline := time.Now().Add(60 * time.Second); time.Now().Before(deadline); time.Sleep(100 * time.Millisecond) {
+						a, _ := call(apiPort, good, false)
+						b, _ := call(replPort, good, true)
+						if a && b {
+							ready = true
+							break
+						}
+					}
+					desc := fmt.Sprintf("regatta leader {%s, ca-filename, %s, client-cert-auth=%v}", scheme, allowKey, cca)
+					if !ready {
+						b, _ := os.ReadFile(logf)
+						r.Violate("tlsbin/right-client-never-accepted/"+mode, desc+": "+tail(string(b)), map[string]any{"kind": "tlsbin", "config": desc})
+						return
+					}
+					for _, ep := range []string{"api", "replication"} {
+						port := apiPort
+						if ep == "replication" {
+							port = replPort
+						}
+						for _, l := range append(append([]*leaf{}, leaves...), plaintext) {
+							name := "no-certificate"
+							if l != nil {
+								name = l.name
+							}
+							accepted, cerr := call(port, l, ep == "replication")
+							should := l != nil && l.chainsTo == "right"
+							if should {
+								if mode == "cn" {
+									should = l.x.Subject.CommonName == cn
+								} else {
+									should = l.x.VerifyHostname(host) == nil
+								}
+							}
+							r.Outcome(fmt.Sprint(desc, ep, name, accepted), true)
+							r.AddExtra("tls_calls_to_real_binaries", 1)
+							cs := map[string]any{"kind": "tlsbin", "config": desc, "endpoint": ep, "client": name}
+							if accepted && !should {
+								r.Violate(fmt.Sprintf("tlsbin/%s-endpoint-accepts-wrong-client/%s/allow=%s", ep, name, mode), fmt.Sprintf("%s: %s endpoint answered client %s (%v)", desc, ep, name, cerr), cs)
+							}
+							if !accepted && should {
+								r.Violate(fmt.Sprintf("tlsbin/%s-endpoint-rejects-right-client/%s/allow=%s", ep, name, mode), fmt.Sprintf("%s: %s endpoint refused client %s: %v", desc, ep, name, cerr), cs)
 							}
 						}
-						r.Outcome(fmt.Sprint(desc, ep, name, accepted), true)
-						r.AddExtra("tls_calls_to_real_binaries", 1)
-						cs := map[string]any{"kind": "tlsbin", "config": desc, "endpoint": ep, "client": name}
-						if accepted && !should {
-							r.Violate(fmt.Sprintf("tlsbin/%s-endpoint-accepts-wrong-client/%s/allow=%s", ep, name, mode), fmt.Sprintf("%s: %s endpoint answered client %s (%v)", desc, ep, name, cerr), cs)
-						}
-						if !accepted && should {
-							r.Violate(fmt.Sprintf("tlsbin/%s-endpoint-rejects-right-client/%s/allow=%s", ep, name, mode), fmt.Sprintf("%s: %s endpoint refused client %s: %v", desc, ep, name, cerr), cs)
-						}
 					}
-				}
-			}()
+				}()
+			}
 		}
 	}
 }
+
+// plaintext stands for a client that connects without TLS.
+var plaintext = &leaf{name: "plaintext-client-without-TLS", chainsTo: "none"}
 
 // runResumption: every ordered pair (A, B) of the server configurations built from the SAME
 // certificate and key (as the endpoints of one node are, or one endpoint before and after its
@@ -995,7 +1018,7 @@ func runTLS(r *evid.Run) {
 
 func Run(r *evid.Run) {
 	r.Check = "c17"
-	r.Rule("tokens, concurrent: one instance of the commands' authorization function called by 2-3 clients at once (right token, another token, no token; 6 programs), every interleaving at statement granularity up to 3 preemptions: each call decided on its own metadata; tokens: for each token configuration {maintenance only, tables only, both, none} the real `regatta leader` and `regatta follower` binaries (built from the working tree) are started on unix sockets; every method of Tables (Create, Delete, List) and Maintenance (Backup stream, Restore stream, Reset) plus KV.Range and Cluster.Status as controls is called on both nodes with 14 authorization variants (absent, empty, right token under 3 scheme spellings, prefix, suffix, case-changed, trailing/leading space, Basic scheme, scheme only, token only, the other service's token): a configured service answers Unauthenticated to everything but the exact token and nothing changes; the right token is never Unauthenticated; unconfigured and other services are unaffected. TLS: real security.TLSInfo.ServerConfig() handshakes over in-memory pipes for 15 client certificates (no certificate, right/wrong CA, self-signed, CN variants, SAN variants, IP SAN, and one issued by a CA that is only in the host's default trust store - SSL_CERT_FILE points this process and the started binaries at a store holding exactly that CA) x {TrustedCAFile} x {ClientCertAuth} x {no restriction, AllowedCN, AllowedHostname, allowed IP, both (must be refused at configuration time)}; reference for hostname validity is x509's VerifyHostname; every ordered pair of those configurations (same certificate and key) x every client: a session obtained from the first must not carry a client past the second one's rules; the same 15 client certificates against the real `regatta leader` process on BOTH its TLS endpoints (client API by flags, replication by flags + config file) for {trusted CA + allowed CN, trusted CA + allowed hostname} x {client-cert-auth default, set}, one real gRPC call each; plus one leader whose endpoints share certificate and key but not the rules (replication: CA only, API: CA + allowed CN): a client the API refuses visits the replication endpoint first and then the API with the same TLS session cache. The binary is built with the repository's own toolchain. Non-trivial: all; distinct = distinct (case, outcome)")
+	r.Rule("tokens, concurrent: one instance of the commands' authorization function called by 2-3 clients at once (right token, another token, no token; 6 programs), every interleaving at statement granularity up to 3 preemptions: each call decided on its own metadata; tokens: for each token configuration {maintenance only, tables only, both, none} the real `regatta leader` and `regatta follower` binaries (built from the working tree) are started on unix sockets; every method of Tables (Create, Delete, List) and Maintenance (Backup stream, Restore stream, Reset) plus KV.Range and Cluster.Status as controls is called on both nodes with 14 authorization variants (absent, empty, right token under 3 scheme spellings, prefix, suffix, case-changed, trailing/leading space, Basic scheme, scheme only, token only, the other service's token): a configured service answers Unauthenticated to everything but the exact token and nothing changes; the right token is never Unauthenticated; unconfigured and other services are unaffected. TLS: real security.TLSInfo.ServerConfig() handshakes over in-memory pipes for 15 client certificates (no certificate, right/wrong CA, self-signed, CN variants, SAN variants, IP SAN, and one issued by a CA that is only in the host's default trust store - SSL_CERT_FILE points this process and the started binaries at a store holding exactly that CA) x {TrustedCAFile} x {ClientCertAuth} x {no restriction, AllowedCN, AllowedHostname, allowed IP, both (must be refused at configuration time)}; reference for hostname validity is x509's VerifyHostname; every ordered pair of those configurations (same certificate and key) x every client: a session obtained from the first must not carry a client past the second one's rules; the same 15 client certificates against the real `regatta leader` process on BOTH its TLS endpoints (client API by flags, replication by flags + config file) for {trusted CA + allowed CN, trusted CA + allowed hostname} x {client-cert-auth default, set}, and once with both endpoints on unix sockets with TLS (unixs://), one real gRPC call each, plus a client that does not speak TLS at all; plus one leader whose endpoints share certificate and key but not the rules (replication: CA only, API: CA + allowed CN): a client the API refuses visits the replication endpoint first and then the API with the same TLS session cache. The binary is built with the repository's own toolchain. Non-trivial: all; distinct = distinct (case, outcome)")
 	bin := filepath.Join(evid.VerifDir, ".bin", "regatta-c17")
 	args := []string{"build"}
 	if ov := os.Getenv("VERIF_BUILD_OVERLAY"); ov != "" {
